@@ -565,6 +565,28 @@ theorem tiff_translated (colors columns bpc : Nat) (data : Bytes) (bpp : Nat) (r
 example : apply_tiff_predictor 2 2 8 [1, 2, 3, 4] = .ok [1, 2, 4, 6] := by decide
 example : tiffNbytes 3 (tiffBpp 2 8) = 6 ∧ tiffHasLeft 1 2 = false ∧ tiffHasLeft 2 2 = true := by decide
 
+/-- ascii85.py: the regex sources are exactly the patterns `stripStart` / `stripEnd` / `isWs` implement
+(`^\s*<?\s*~\s*`, `\s*~\s*>?\s*$`, `\s`), `base64.a85decode` is called with its default options, and
+`asciihexdecode` is written with the translated EOD byte, pad digit and odd-length test. -/
+theorem a85_ahx_translated (data : Bytes) :
+    A85_START_RE = [94, 92, 115, 42, 60, 63, 92, 115, 42, 126, 92, 115, 42] ∧
+    A85_END_RE = [92, 115, 42, 126, 92, 115, 42, 62, 63, 92, 115, 42, 36] ∧
+    AHX_WS_RE = [92, 115] ∧
+    A85DECODE_EXTRA_ARGS = 0 ∧
+    asciihexdecode data =
+      (let d := data.filter (fun b => !isWs b)
+       let t := d.takeWhile (fun b => [b] != AHX_EOD)
+       if t.length < d.length then unhexlify (if ahxNeedsPad t.length then t ++ AHX_PAD else t)
+       else unhexlify d) := by
+  refine ⟨by decide, by decide, by decide, rfl, ?_⟩
+  have hf : (fun b : UInt8 => [b] != AHX_EOD) = (fun b => b != 62) := by
+    funext b; by_cases hb : b = 62 <;> simp [AHX_EOD, bne, hb]
+  simp only [asciihexdecode, hf, ahxNeedsPad, AHX_PAD]
+  by_cases h : (List.takeWhile (fun b => b != 62) (List.filter (fun b => !isWs b) data)).length % 2 = 1 <;> simp [h]
+
+example : ahxNeedsPad 3 = true ∧ ahxNeedsPad 4 = false := by decide
+example : asciihexdecode [52, 32, 49, 55, 62, 55] = .ok [0x41, 0x70] := by decide
+
 /-! ## Round 6: the whole `stream` branch — Length clamp, `endstream` scan, fallback mode
 
 `streamRead` (tied to `PDFParser.do_keyword` on every run, fallback and non-fallback, any `Length`)
